@@ -345,6 +345,28 @@ class SigmaCollection:
 
         # Finally merge all SigmaCollection's and return the result. Merge without
         # resolving references (we'll do a single resolution pass after merge).
+        if collect_errors:
+            # Errors raised while filters are applied or references are resolved are collected
+            # like in from_dicts() instead of being raised.
+            merged = cls(
+                init_rules=[
+                    rule
+                    for collection in sigma_collections
+                    for rule in collection.rules + collection.filters
+                ],
+                errors=[error for collection in sigma_collections for error in collection.errors],
+                collect_filters=True,
+                resolve_references=False,
+            )
+            try:
+                if merged.filters:
+                    merged.apply_filters(merged.filters)
+                if resolve_references:
+                    merged.resolve_rule_references()
+            except SigmaError as e:
+                merged.errors.append(e)
+            return merged
+
         merged = cls.merge(sigma_collections, resolve_references=False)
         if resolve_references:
             merged.resolve_rule_references()
